@@ -11,10 +11,10 @@ T = {
          "Labels come from the generator's construction (one mutated field per candidate; 99 recipes incl. weight 4 000 000/+1, sigop cost 80 000/+1/+4, BIP68 time locks, CLTV/CSV operands, multiple witness commitments, height-gated rules probed on both sides of their activation height, BIP30, BIP94); scripts inside blocks come from templates (arbitrary programs are C06's job); checkpoints and mainnet-only historical exceptions are not reached.", "§4 C01, Appendix A"),
  "C02": ("model-based history checking (declarative best-chain oracle) + race detector",
          "Runs the real node on random block trees delivered in disordered, duplicated, header-interleaved orders with restarts and InvalidateBlock/ReconsiderBlock, and after every operation compares the tip with the declarative most-work valid chain and cross-checks every view and the notification stream; concurrent readers run under -race.",
-         "Validity labels from the generator; orphan-pool eviction/expiry (wall clock, 100 entries) kept out of range; ties among chains none of which is the current tip accept any maximal candidate.", "§4 C02"),
+         "Validity labels from the generator; orphan-pool eviction/expiry (wall clock, 100 entries) kept out of range; ties among chains none of which is the current tip accept any maximal candidate; families reconsider (failed descendant below an invalidated block) and read-fault (one database read fails during a tip extension; goes beyond the stated quantifier, kept because silent).", "§4 C02, §12"),
  "C03": ("model-based history checking (definitional UTXO fold) + race detector",
          "Runs the real node through dense-spending histories with reorganisations, flushes of all modes, restarts and disconnect/reconnect of the tip under cache sizes from 0 to 1 GiB and compares FetchUtxoEntry over every outpoint ever created, spend journals, FetchUtxoView and the raw persisted bucket with the fold of the active chain; concurrent readers under -race.",
-         "The refchain fold is the definition; cache memory accounting accuracy is not part of the property.", "§4 C03"),
+         "The refchain fold is the definition (unparseable output scripts are unspendable, as in btcd); half of the post-operation checks are FetchUtxoView probes primed with partial single-entry lookups; cache memory accounting accuracy is not part of the property.", "§4 C03, §12"),
  "C04": ("crash-point injection in child processes (SIGKILL at hooked I/O events) + recovery oracle",
          "For seeded workloads and configurations, kills a real child process at sampled (quick) / many (thorough) durable I/O events under process-death and power-loss models, reopens in a fresh process and checks tip-was-active, utxo = fold, acknowledged blocks known and convergence after replay; some recoveries are themselves crashed.",
          "leveldb atomic-durable at commit return; torn sector writes not modelled; crashes during recovery are enumerated over the start-up I/O events of a recovery with a small cache (family recovery); pruning configurations included (with pruning, readability is judged at store level: has block => serves it byte-identical).", "§4 C04, §9, §12"),
@@ -35,13 +35,13 @@ T = {
          "Reference written from the protocol definition with math/big.", "§4 C09"),
  "C10": ("invariant checking at quiescence on a full node + state-transition oracles + race detector",
          "Drives mempool+chain+netsync handler+mining with submission/replacement/orphan/block/reorg histories and evaluates I1-I7 (conflict-freedom, input availability, spend index, minability via CheckConnectBlockTemplate, rejected-leaves-unchanged, replacement rules, orphan bounds) after every operation; concurrent submitters/readers/producer under -race.",
-         "H3 snapshot hook exposes internal indexes; wall-clock features (penny limiter, orphan expiry) configured out.", "§4 C10"),
+         "H3 snapshot hook exposes internal indexes; wall-clock features (penny limiter, orphan expiry) configured out; the minability probe takes the longest dependency-closed prefix of the pool that fits one block; orphan size boundary and unminable sigop-cost submissions included.", "§4 C10, §12"),
  "C11": ("differential against independent secp256k1 / BIP340 / BIP327 references",
          "Compares ECDSA/Schnorr verification, DER and key parsing, signing, MuSig2 key/nonce aggregation, partial signatures and ECDH with math/big references on honest, algebraically forged, boundary and random inputs.",
          "Curve arithmetic lives in the decred module outside /repo; constant-time behaviour out of reach.", "§4 C11"),
  "C12": ("differential accounting of real block templates + end-to-end acceptance + race detector",
          "Generates templates on a full node over varied pool contents and mining policies, recomputes order, fees, sigop costs, coinbase value, witness commitment and merkle root independently, applies UpdateBlockTime/UpdateExtraNonce, solves and submits every template to ProcessBlock.",
-         "Sigop cost/weight from the independent refacct package; merkle/commitment from the generator's own code.", "§4 C12"),
+         "Sigop cost/weight from the independent refacct package; merkle/commitment from the generator's own code; pay addresses with and without sigops, pools at the 80 000 sigop-cost limit, a halving inside the template-built chain, the min-difficulty family with UpdateBlockTime across the exception boundary, a discarded first template plus fee bump before the mined one.", "§4 C12, §12"),
  "C13": ("differential against definitional references (merkle, weight, sigops, BIP34, finality, BIP68)",
          "Compares every exported accounting primitive with definitional references over generated transactions, blocks, scripts and chain contexts, including exhaustive short scripts and a real chain for CalcSequenceLock.",
          "References calibrated on mainnet blocks in the repository's testdata and Core's sigop vectors.", "§4 C13"),
@@ -59,7 +59,7 @@ T = {
          "Locator shape re-implemented from the protocol convention.", "§4 C17"),
  "C18": ("event-history checking of real peers (handshake automaton, FIFO/exactly-once, goroutine census) + race detector",
          "Runs real peers against a scripted remote over an in-memory conn with injected delays/faults; checks the handshake automaton on enumerated scripts, per-sender FIFO and exactly-once completion signals from captured bytes, goroutine termination after disconnect, under -race with varied GOMAXPROCS.",
-         "Wall-clock timeouts (negotiation, idle, stall) are never waited for; termination is judged after both ends are closed with a generous settle watchdog.", "§4 C18, Appendix C"),
+         "Wall-clock timeouts (negotiation, idle) are never waited for, except the stall timer in the stall family (30-45 s per case under a 100 s watchdog whose expiry is inconclusive); termination is judged after both ends are closed with a generous settle watchdog.", "§4 C18, Appendix C, §12"),
  "C19": ("differential against an independent BIP324 endpoint + tamper monitor + race detector",
          "Runs real<->reference and real<->real handshakes and long packet streams across rekeys (byte-identical ciphertext demanded), then tampers with every byte class, truncates, drops, duplicates and swaps packets; ElligatorSwift functions against a math/big reference.",
          "ChaCha20/Poly1305/HKDF from x/crypto trusted.", "§4 C19"),
